@@ -4,6 +4,7 @@
 
    grid  one interval level p (permille): min = get_minimum_reporting_units(p/1000) and, for n = n0, n0+1, ...,
          f100[k] = 100 * _compute_conf_frac(n, p/1000)  (-1 if the value is not a whole number of hundredths)
+   fixed est, mins = every value get_minimum_reporting_units returned over the grid, f100s = every fixed fraction
    run   one real run of the gate / split: a ModelClient.get_estimates call, or a direct call of
          get_unit_prediction_intervals (src = "probe"): est, alphas, n = modelled reporting units, dup,
          mins[i] = what get_minimum_reporting_units returned, outcome in {not_enough, client_error, done, crashed},
@@ -27,6 +28,13 @@ T == Traces[tid]
 Mark(name) == PrintT(<<"FAIL", ToJson([tid |-> tid, clause |-> name])>>)
 Chk(name, cond) == cond \/ (Mark(name) /\ FALSE)
 
+\* rows ordered by (score, row), as ConformalSplit.SortCum orders them
+TraceSorted(rk) ==
+  LET idx == 1..Len(rk)
+      before(i, j) == rk[i] < rk[j] \/ (rk[i] = rk[j] /\ i < j)
+      pos == [i \in idx |-> Cardinality({j \in idx : before(j, i)}) + 1]
+  IN  [k \in idx |-> CHOOSE i \in idx : pos[i] = k]
+
 ScOf(t) ==
   CASE t.kind = "run"  -> [est |-> t.est, alphas |-> t.alphas, n |-> t.n, dup |-> t.dup]
     [] t.kind = "corr" -> [cal |-> [i \in 1..Len(t.rk) |-> [lo |-> t.rk[i], up |-> t.rk[i], w |-> t.w[i]]],
@@ -34,7 +42,8 @@ ScOf(t) ==
     [] OTHER -> [kind |-> t.kind]
 StOf(t) ==
   CASE t.kind = "run"  -> [mins |-> t.mins, need |-> NeedLoop(t.mins, Len(t.mins)), splits |-> t.splits]
-    [] t.kind = "corr" -> [pop |-> t.popRk, c |-> <<t.popRk, 1>>]
+    [] t.kind = "corr" -> [CorrFresh EXCEPT !.scores = t.rk, !.srt = TraceSorted(t.rk), !.pop = t.popRk,
+                                             !.c = <<t.popRk, 1>>]
     [] OTHER -> [kind |-> t.kind]
 PcOf(t) ==
   CASE t.kind = "run"  -> t.outcome
@@ -59,6 +68,12 @@ GridOK ==
          n >= MinExact(T.p) =>
            Chk("fraction_in_candidates:p=" \o ToString(T.p) \o ",n=" \o ToString(n) \o ",f100=" \o ToString(T.f100[k]),
                T.f100[k] \in Round2Candidates(T.p, n))
+
+(* C14: the estimators whose minimum / fraction does not depend on the level: every value observed over the grid *)
+FixedOK ==
+  T.kind = "fixed" =>
+    /\ \A k \in DOMAIN T.mins : Chk("fixed_minimum:" \o T.est \o "=" \o ToString(T.mins[k]), T.mins[k] \in MinCandidates(T.est, 500))
+    /\ \A k \in DOMAIN T.f100s : Chk("fixed_fraction:" \o T.est \o "=" \o ToString(T.f100s[k]), T.f100s[k] \in FracCandidates(T.est, 500, 100))
 
 (* C14: real runs of the gate and the split *)
 IsRun == T.kind = "run"
@@ -104,7 +119,7 @@ CorrIsScore == IsCorr => Chk("population_correction_is_a_score", T.popRk \in {T.
 TWeightedCoverage   == (IsCorr /\ T.popRk >= 1) => Chk("weighted_coverage", WeightedCoverage)
 TSmallestCorrection == (IsCorr /\ T.popRk >= 1) => Chk("smallest_correction", SmallestCorrection)
 \* scaled values (scale T.S): k-th smallest scaled score through the module's sort of the ranks
-ScaledSorted(k) == T.sS[SortedIdx[k]]
+ScaledSorted(k) == T.sS[st.srt[k]]
 ScaledUnweightedTimesDen ==
   LET hN == QNum * (NCal - 1)
       lo == hN \div QDen
